@@ -71,6 +71,36 @@ class CDisc(Discipline):
         self.jac = {o: {i: full[o][i] for i in (input_names or INS)} for o in (output_names or OUTS)}
 
 
+class SDisc(Discipline):
+    """Self-coupled flavour: "x" is an input AND an output, and the body updates the array it received
+    in place, x <- F(x), as a solver wrapping a state vector does (the library deep-copies the in/out
+    variables of the cache key before the run for exactly this case).  F maps the lattice onto itself
+    (table given by the specification), so an output fed back as the next input is again a lattice point.
+    y, w are computed from the value of x AT CALL TIME."""
+
+    INS = ("x", "z")
+    OUTS = ("x", "y", "w")
+
+    def __init__(self, table):
+        super().__init__("D")
+        self.input_grammar.update_from_names(list(self.INS))
+        self.output_grammar.update_from_names(list(self.OUTS))
+        self.default_input_data = {"x": array([0.0]), "z": array(Z_VALUES[0])}
+        self.table = dict(table)  # lattice value -> F(lattice value)
+        self.inplace = False
+        self.run_log = []
+        self.lin_log = []
+
+    def _run(self, input_data):
+        x, z = input_data["x"], input_data["z"]
+        x0 = float(x[0])
+        self.run_log.append((x0, float(z[0])))
+        y = array([x0 ** 2 + x0 * z[0] + z[1]])
+        w = array([x0 - 2 * z[0], 3 * x0])
+        x[0] = self.table[x0]  # in-place update of the self-coupled input array
+        return {"x": x, "y": y, "w": w}
+
+
 def dense(m):
     return np.asarray(m.todense()) if hasattr(m, "todense") else np.asarray(m)
 
@@ -78,19 +108,35 @@ def dense(m):
 class World:
     """Lattice <-> arrays, and the value oracle: an uncached twin evaluated at lattice points."""
 
-    def __init__(self, xv, scale, nz):
+    def __init__(self, xv, scale, nz, fx=None):
+        """fx: lattice index -> lattice index (the specification's FX) for the self-coupled flavour."""
         self.xv = list(xv)
         self.scale = scale
         self.points = [(xi, zi) for xi in range(1, len(self.xv) + 1) for zi in range(nz)]
-        self.twin = CDisc()
+        self.selfupd = fx is not None
+        self.outs = SDisc.OUTS if self.selfupd else OUTS
+        self.table = {self.xv[i - 1] / scale: self.xv[j - 1] / scale for i, j in fx.items()} if fx else None
+        self.twin = self.new_discipline(False)
         self.twin.set_cache("")  # uncached
         self._out = {}
         self._jac = {}
         for p in self.points:
-            data = self.twin.execute(self.inputs(p, "alt" if p[1] else "dflt"))
-            self._out[p] = {k: np.array(data[k], copy=True) for k in OUTS}
-            j = self.twin.linearize(self.inputs(p, "alt" if p[1] else "dflt"), compute_all_jacobians=True)
-            self._jac[p] = {(o, i): dense(j[o][i]).copy() for o in OUTS for i in INS}
+            za = "alt" if p[1] else "dflt"
+            data = self.twin.execute(self.inputs(p, za))  # fresh arrays
+            self._out[p] = {k: np.array(data[k], copy=True) for k in self.outs}
+            if not self.selfupd:
+                j = self.twin.linearize(self.inputs(p, za), compute_all_jacobians=True)
+                self._jac[p] = {(o, i): dense(j[o][i]).copy() for o in OUTS for i in INS}
+
+    def new_discipline(self, inplace):
+        return SDisc(self.table) if self.selfupd else CDisc(inplace)
+
+    def index_of(self, value):
+        """Lattice index of a value of "x" (0: not a lattice value)."""
+        for i, v in enumerate(self.xv):
+            if v / self.scale == value:
+                return i + 1
+        return 0
 
     def xval(self, xi):
         return self.xv[xi - 1] / self.scale
@@ -115,7 +161,8 @@ class World:
                 return p
         return (0, 0)
 
-    def point_of_outputs(self, data, names=OUTS):
+    def point_of_outputs(self, data, names=None):
+        names = names or self.outs
         for p in self.points:
             ref = self._out[p]
             try:
@@ -160,7 +207,7 @@ class Driver:
         self.w = world
         self.kind = kind
         self.tol = tol
-        self.d = CDisc(inplace)
+        self.d = world.new_discipline(inplace)
         self.h5 = None
         if kind == "hdf5":
             self.h5 = reuse.h5 if reuse is not None else str(workdir / f"c05-{tag}.h5")
@@ -236,8 +283,15 @@ class Driver:
         data = self.d.execute(inp)
         n_ran = len(self.d.run_log) - n0
         ev = {"op": "exec", "c": c, "x": list(p), "hasOut": True, "src": list(self.w.point_of_outputs(data)),
-              "ran": n_ran > 0, "req": 0, "jl": 0, "jsrc": [1, 0], "lin": False}
+              "ran": n_ran > 0, "req": 0, "jl": 0, "jsrc": [1, 0], "lin": False, "after": self._after(c)}
         return ev, self._body_ok(p, n0, n_ran)
+
+    def _after(self, c):
+        """What the caller's array holds after the call (read from the array, not predicted)."""
+        if c == "lit":
+            return 0
+        self.cell_idx[c] = self.w.index_of(float(self.cells[c][0]))
+        return self.cell_idx[c]
 
     def linearize(self, c, za, mode, ex, xi=None):
         p, inp = self._call_inputs(c, za, xi)
@@ -249,7 +303,7 @@ class Driver:
         src = self.w.point_of_outputs(self.d.io.data, ("y", "w")) if ex else (1, 0)
         ev = {"op": "lin", "c": c, "x": list(p), "hasOut": bool(ex), "src": list(src), "ran": n_ran > 0,
               "req": 3 if mode == "all" else self.diff, "jl": jl, "jsrc": list(jsrc),
-              "lin": len(self.d.lin_log) > m0}
+              "lin": len(self.d.lin_log) > m0, "after": self._after(c)}
         return ev, self._body_ok(p, n0, n_ran)
 
     def _body_ok(self, p, n0, n_ran):
